@@ -76,7 +76,7 @@ Proof.
   assert (Hh : forallb wsch (hd [] gaps) = true) by (destruct gaps; [reflexivity|]; cbn [forallb] in Hg; now apply andb_true_iff in Hg as [Hg _]).
   assert (Ht : forallb (forallb wsch) (tl gaps) = true) by (destruct gaps; [reflexivity|]; cbn [forallb] in Hg; now apply andb_true_iff in Hg as [_ Hg]).
   rewrite (forallb_impl wsch ech (hd [] gaps)) by (auto; intros x Hx; unfold ech; rewrite Hx; now rewrite orb_true_r).
-  rewrite (IH Hl (tl gaps) Ht). reflexivity.
+  change (ech COMMA) with true. cbn [andb]. now apply IH.
 Qed.
 
 Lemma ech_facts x : ech x = true -> textch x = true /\ (x =? RBRACE) = false /\ (x =? BSL) = false.
